@@ -662,6 +662,14 @@ func (x *octx) callOriginPath1(call *ssa.Call, idx int, path []string) OSet {
 	if callee == nil {
 		return crossAll(one(OAtom{Class: oUnknown, Name: "dynamic call"}), path)
 	}
+	// sync.Pool hands out memory that stays owned by the (package-level) pool
+	if callee.Signature.Recv() != nil && namedType(callee.Signature.Recv().Type()) == "sync.Pool" && callee.Name() == "Get" {
+		return crossAll(one(OAtom{Class: oGlobal, Name: "sync.Pool"}), path)
+	}
+	// a bytes.Buffer's Bytes() aliases the buffer
+	if callee.Signature.Recv() != nil && namedType(callee.Signature.Recv().Type()) == "bytes.Buffer" && callee.Name() == "Bytes" {
+		return x.originPath(cc.Args[0], path, call)
+	}
 	// math/big methods return their receiver
 	if callee.Signature.Recv() != nil && isBigType(callee.Signature.Recv().Type()) {
 		res := callee.Signature.Results()
